@@ -1,5 +1,6 @@
 (* Props_C16.v — C16: custom broadcasts: delivered intact, only where allowed, invalidated promptly. *)
-From Foca Require Import Laws BcastM FocaM WireM L_Bcast L_Fill L_Members L_MembersInv Inv Reach L_Wire L_Dissem.
+From Foca Require Import Laws BcastM FocaM WireM L_Bcast L_Fill L_Members L_MembersInv Inv Reach L_Wire L_Dissem L_BacklogOps.
+From Coq Require Import Relations.
 From Coq Require Import Sorted.
 
 Section C16.
@@ -66,8 +67,28 @@ Theorem C16_broadcast_empty (rnd : oracle) (s : @rs Id Addr HO) :
   customs (st s) = [] -> broadcast rnd s = (s, ROk tt).
 Proof. exact (broadcast_empty_noop rnd s). Qed.
 
+(* OVER EVERY CALL (any input, any oracle): the backlog of custom broadcasts changes only through
+   accepting an item (add_or_replace with the handler's invalidation relation:
+   C16_accept_and_invalidate) and through one fill per datagram that may carry items
+   (C16_fill_spec) *)
+Theorem C16_backlog_operations (l l' : backlog hkey) :
+  cstep l l' <->
+  (exists k d tx, l' = add_or_replace hkey h_inval l k d tx)
+  \/ (exists hint room w n, fill_gen hkey 2 hint l room usize_max = (w, n, l', None)).
+Proof.
+  split.
+  - intros H. destruct H as [l k d tx|l hint room w n kept FG]; [left; eauto|right; eauto].
+  - intros [(k & d & tx & ->)|(hint & room & w & n & FG)]; [constructor|econstructor; exact FG].
+Qed.
+
+Theorem C16_backlog_changes_only_so (rnd : oracle) (f : @foca Id Addr HO) (i : @input Id) :
+  clos_refl_trans _ cstep (customs f) (customs (fst (fst (fst (step rnd f i))))).
+Proof. exact (proj2 (step_backlogs rnd f i)). Qed.
+
 End C16.
 
+Print Assumptions C16_backlog_operations.
+Print Assumptions C16_backlog_changes_only_so.
 Print Assumptions C16_backlog_invariant.
 Print Assumptions C16_accept_and_invalidate.
 Print Assumptions C16_fill_spec.
